@@ -76,10 +76,19 @@ def run(ck):
             for m in range(nmol):
                 mol = Molecule([0.0, E[m]])
                 mol.set_dipole(0, 1, D[m])
-                for md in spec[m]:
+                for km_, md in enumerate(spec[m]):
                     mod = Mode(frequency=md["w0"])
-                    mol.add_Mode(mod)
-                    mod.set_nmax(0, md["n0"]); mod.set_nmax(1, md["n1"])
+                    # the number of ground-state levels is declared on the mode either after it was attached to the molecule or
+                    # (every second mode) before - a Mode is an object of its own and may be prepared first
+                    if (h + m + km_) % 2 == 1:
+                        md["ground_levels_declared"] = "before add_Mode"
+                        mod.set_nmax(0, md["n0"])
+                        mol.add_Mode(mod)
+                        mod.set_nmax(1, md["n1"])
+                    else:
+                        md["ground_levels_declared"] = "after add_Mode"
+                        mol.add_Mode(mod)
+                        mod.set_nmax(0, md["n0"]); mod.set_nmax(1, md["n1"])
                     if md["order"] == "energy-first":
                         if md["w1"] != md["w0"]:
                             mod.set_energy(1, md["w1"])
